@@ -15,6 +15,12 @@ import (
 //  1. Is a module account.
 //  2. Is a vesting account which still not expired.
 func CheckIfAccountIsSuitableForDestroying(account sdk.AccountI) (destroyable bool, reason string) {
+	return CheckIfAccountIsSuitableForDestroyingAt(account, time.Now().UTC())
+}
+
+// CheckIfAccountIsSuitableForDestroyingAt is the same as CheckIfAccountIsSuitableForDestroying
+// but evaluates the vesting end time against the provided time (block time for consensus code).
+func CheckIfAccountIsSuitableForDestroyingAt(account sdk.AccountI, now time.Time) (destroyable bool, reason string) {
 	if account == nil || reflect.ValueOf(account).IsNil() {
 		panic("account is nil")
 	}
@@ -25,14 +31,14 @@ func CheckIfAccountIsSuitableForDestroying(account sdk.AccountI) (destroyable bo
 	}
 
 	if vestingAcc, ok := account.(*vestingtypes.BaseVestingAccount); ok {
-		if vestingAcc.GetEndTime() > time.Now().UTC().Unix() {
+		if vestingAcc.GetEndTime() > now.Unix() {
 			reason = "unexpired vesting account is not suitable for destroying"
 			return
 		}
 	}
 
 	if vestingAcc, ok := account.(vesting.VestingAccount); ok {
-		if vestingAcc.GetEndTime() > time.Now().UTC().Unix() {
+		if vestingAcc.GetEndTime() > now.Unix() {
 			reason = "unexpired vesting account is not suitable for destroying"
 			return
 		}
